@@ -11,8 +11,9 @@ CHECKS = {
         category="model_checking",
         text="Complete enumeration of the finite input space the property "
              "quantifies over: all 1957 ordered selections of the 6 shipped "
-             "steps through the real autosort/check_order/apply, plus every "
-             "insertion of an unknown identifier; reference order predicates "
+             "steps through the real autosort/check_order/apply, every "
+             "insertion of an unknown identifier, all ordered pairs of "
+             "autosort calls on orderings of one step set; reference order predicates "
              "derived from the step metadata. Exhaustive, so this decides the "
              "property for the shipped step set.",
         design_ref="DESIGN.md §2 C14",
@@ -26,8 +27,10 @@ CHECKS = {
     "C03": dict(
         category="model_checking",
         text="Explicit-state BFS over operation histories on the real "
-             "Indentation (30-op alphabet to depth 3/4 plus four focused "
-             "drivers to depth 3-6) with a differential from-scratch oracle "
+             "Indentation (30-op alphabet to depth 3/4 plus six focused "
+             "drivers to depth 3-6: plateau, gcf/relative, failures, failures "
+             "on a curve with innate tip position, near-equal initial "
+             "parameters, recorded curve) with a differential from-scratch oracle "
              "per new state and an optimisation counter per transition; the "
              "settings store (FitProperties) alone is explored to closure "
              "against a dict + ghost-bit reference. History-dependence bugs "
@@ -45,7 +48,7 @@ CHECKS = {
     ),
     "C06": dict(
         category="model_checking",
-        text="Explicit-state BFS over sequences of 7 valid and 6 invalid "
+        text="Explicit-state BFS over sequences of 7 valid and 8 invalid "
              "(steps, options) requests through apply_preprocessing "
              "(with/without ret_details) and fit_model(preprocessing=...), "
              "interleaved with fits and a rating: all ordered pairs (quick) "
@@ -67,7 +70,8 @@ CHECKS = {
              "2-6) is executed twice, once handing the API the caller's own "
              "objects and once handing it deep copies; states must agree "
              "after every call and argument digests must be unchanged by "
-             "every call. Pure entry points (POC estimators, model and "
+             "every call (incl. ret_details=True; returned arrays must not "
+             "share memory with arguments). Pure entry points (POC estimators, model and "
              "residual functions, rater, features) are enumerated over a "
              "grid with before/after digests.",
         design_ref="DESIGN.md §2 C10",
@@ -125,7 +129,9 @@ CHECKS = {
              "enumeration: from every pre-state up to depth 1/2, for every "
              "op, an OSError is raised at each of the W (~30-41) h5py write "
              "calls of the save; afterwards all earlier ratings must load "
-             "unchanged.",
+             "unchanged and a retry of the interrupted save must end in the "
+             "state of a clean save; folders with several containers holding "
+             "the same curve are compared with per-container loads.",
         design_ref="DESIGN.md §2 C16",
         note="Faults are exceptions at h5py call boundaries with a normal "
              "close; torn pages inside libhdf5 are out of scope.",
@@ -221,7 +227,8 @@ CHECKS = {
              "parameter) x parameter cells x 6 abscissa arrays of either "
              "orientation x translations, baseline shifts, modulus scales, "
              "continuity ladder, weighting distances; plus complete fits of "
-             "the order-sensitive model on both segments.",
+             "the order-sensitive model on both segments and re-registration "
+             "of changed code under one key.",
         design_ref="DESIGN.md §2 C13",
         note="Bit-exact where the arithmetic is exact (dyadic), ulp-scaled "
              "tolerances elsewhere.",
@@ -253,7 +260,9 @@ CHECKS = {
              "pairs of 12 interval endpoints built from the curve itself "
              "(on samples, between samples, 1-ulp neighbours, segment ends, "
              "+-inf, equal, inverted) x k in {1, 0.5}; 7 relative "
-             "intervals; plateau search with 3 sample counts x 4 ranges. "
+             "intervals; plateau search with 3 sample counts x 4 ranges; "
+             "all length-3 sequences of sample-count changes, fits and "
+             "manual scans on one object. "
              "Every optimisation pass is intercepted (lmfit.minimize "
              "wrapper) and the point set it was given is compared with a "
              "set comprehension over the abscissa.",
@@ -326,7 +335,9 @@ CHECKS = {
              "combinations), a degenerate family (7 shapes x 11 lengths) and "
              "recorded curves: valid index, exact invariance for dyadic "
              "scales, within one sample otherwise, stated accuracy on clean "
-             "curves, documented fallback without exception.",
+             "curves, documented fallback without exception; the "
+             "Indentation-level entry point over pipeline histories agrees "
+             "with the estimator on the current force.",
         design_ref="DESIGN.md §2 C08",
         note="Accuracy fractions are regression bounds per estimator and "
              "baseline class.",
@@ -409,7 +420,7 @@ def build():
              "kind_free_text": "closure (fixpoint) search of small dictionary-like stores against a reference model"},
         ],
         "checks": checks,
-        "notes": "All checks run the real nanite code from /repo/src (no build step). Exit 0 = held, 1 = VIOLATION, 2 = harness error (no verdict). known_findings.json lists genuine defects (fixed ones with their fix: commit).",
+        "notes": "All checks run the real nanite code from /repo/src (no build step). Exit 0 = held, 1 = VIOLATION (every reported counterexample was re-executed and reproduced in a fresh interpreter), 2 = harness error (no verdict). known_findings.json lists genuine defects (fixed ones with their fix: commit). seeded/ holds 78 confirmed property-breaking changes with the checks' results (seeded/MATRIX.md); tools/seedtest.py re-runs them.",
         "not_applicable": [{"property_id": p, "reason": NA_REASON}
                            for p in ALL if p not in CHECKS],
     }
